@@ -480,7 +480,7 @@ pub fn parse_responses(b: &[u8], is_head: &dyn Fn(usize) -> bool) -> RespParse {
             return out;
         }
         m.head_end = i;
-        let informational = (100..200).contains(&m.status);
+        let informational = (100..200).contains(&m.status) && m.status != 101;
         let head_resp = if informational {
             false
         } else {
@@ -570,6 +570,6 @@ pub fn parse_responses(b: &[u8], is_head: &dyn Fn(usize) -> bool) -> RespParse {
 pub fn finals(p: &RespParse) -> Vec<&RespMsg> {
     p.msgs
         .iter()
-        .filter(|m| m.complete && !(100..200).contains(&m.status))
+        .filter(|m| m.complete && (m.status == 101 || !(100..200).contains(&m.status)))
         .collect()
 }
